@@ -215,7 +215,7 @@ pub fn worker(tier: Tier, seed: u64) -> CaseFn<'static> {
             let all: Vec<Call> = p.threads.iter().flatten().cloned().collect();
             let base = alone(&doc, &all);
             let mode = format!("{}|{}", if p.shared_resolver { "shared-resolver" } else { "resolver-per-thread" }, if p.cached { "cached" } else { "uncached" });
-            let (max_preempt, cap) = if tier == Tier::Quick { (if p.threads.iter().map(|t| t.len()).sum::<usize>() <= 2 { 99 } else { 2 }, 3000u64) } else { (if p.threads.len() == 2 && p.threads.iter().all(|t| t.len() == 1) { 99 } else { 3 }, 200_000u64) };
+            let (max_preempt, cap) = if tier == Tier::Quick { (if p.threads.iter().map(|t| t.len()).sum::<usize>() <= 2 { 99 } else { 2 }, 3000u64) } else { (if p.threads.len() == 2 && p.threads.iter().all(|t| t.len() == 1) { 99 } else { 3 }, 40_000u64) };
             let mut prefix: Vec<usize> = Vec::new();
             let mut n_exec = 0u64;
             let mut distinct = std::collections::HashSet::new();
@@ -223,6 +223,7 @@ pub fn worker(tier: Tier, seed: u64) -> CaseFn<'static> {
             loop {
                 let e = execute(&doc, p, &prefix, max_preempt);
                 n_exec += 1;
+                if n_exec % 500 == 0 { crate::sup::heartbeat(); }
                 distinct.insert(e.trace_hash);
                 match &e.outcome {
                     Outcome::Completed => {}
